@@ -370,9 +370,36 @@ impl FileSpec {
                 }
             })
             .collect::<Vec<PathBuf>>();
-        log_files.sort_unstable();
+        // newest first; note that a file with restart extension is newer than
+        // the file without, and newer than those with a smaller restart number
+        log_files.sort_unstable_by_key(|path| self.sort_key(path));
         log_files.reverse();
         log_files
+    }
+
+    // sort key for log files: name without suffix(es) and restart extension, restart number
+    // (0 if there is no restart extension), full name
+    fn sort_key(&self, path: &Path) -> (String, usize, PathBuf) {
+        let name = path
+            .file_name()
+            .map(|s| s.to_string_lossy().to_string())
+            .unwrap_or_default();
+        let mut stem: &str = &name;
+        stem = stem.strip_suffix(".gz").unwrap_or(stem);
+        if let Some(suffix) = &self.o_suffix {
+            stem = stem
+                .strip_suffix(suffix.as_str())
+                .and_then(|s| s.strip_suffix('.'))
+                .unwrap_or(stem);
+        }
+        match stem.split_once(".restart-") {
+            Some((base, number)) => (
+                base.to_string(),
+                number.parse::<usize>().map_or(0, |n| n + 1),
+                path.to_path_buf(),
+            ),
+            None => (stem.to_string(), 0, path.to_path_buf()),
+        }
     }
 
     pub(crate) fn filter_files(
